@@ -65,15 +65,22 @@ class ConclusionMixin:
         h = super().havoc_for_loop(eng, st, body, **kw)
         callee = kw.get('callee')
         if callee is not None:
-            fresh = z3.FreshConst(ArrNodeSet, 'hconcl')
-            h.fields['concl'] = z3.Map(z3.If(z3.Bool('_c'), z3.Const('_p', Z.ArrIB), z3.Const('_q', Z.ArrIB)).decl(),
-                                       Z.Sub(callee), fresh, h.fields['concl'])
+            ite = z3.If(z3.Bool('_c'), z3.Const('_p', Z.ArrIB), z3.Const('_q', Z.ArrIB)).decl()
+            n = st.ghost['self']
+            # a helper generator of the node itself (super()._evaluate__) leaves the node's own set alone: only the
+            # operands' subtrees are touched
+            subs = [Z.Sub(ch) for ch in self.children(n)] if callee.eq(n) else [Z.Sub(callee)]
+            for sub in subs:
+                fresh = z3.FreshConst(ArrNodeSet, 'hconcl')
+                h.fields['concl'] = z3.Map(ite, sub, fresh, h.fields['concl'])
         return h
 
     def assume_row(self, st, c, sig, f, R, filt_c=None):
         m = super().assume_row(st, c, sig, f, R, filt_c)
         cc = z3.Select(st.fields['concl'], c)
-        st.qf.append(lambda rho, m=m, c=c, cc=cc: z3.Implies(z3.And(Z.ext(rho, m), WD(c, rho)), cc == Sel(c, rho)))
+        lc = z3.Select(st.fields['is_false'], c)
+        # S1 of the callee: for a TRUE row its conclusion set is the one its rule (sub)tree prescribes
+        st.qf.append(lambda rho, m=m, c=c, cc=cc, lc=lc: z3.Implies(z3.And(Z.ext(rho, m), WD(c, rho), z3.Not(lc)), cc == Sel(c, rho)))
         for e in st.ghost.get('envs', []):
             st.assume(st.qf[-1](e))
         return m
@@ -165,4 +172,257 @@ class ExceptIfEval(RefinementCacheMixin, ConclusionMixin, EvalContract):
         return z3.If(Z.Den(r, rho), Sel(r, rho), Sel(l, rho))
 
 
-CONTRACTS = [ExceptIfEval]
+from .symbolic_nodes import ElseIfEval  # noqa: E402
+
+
+def s2_clauses(st, n, rho):
+    """S2, the extra postcondition of ElseIf._evaluate__ that Alternative relies on: at a yield, for every well-defined
+    rho extending the row, the left operand's flag is its truth; if it is false the right operand's flag is its truth; and
+    the conclusion set of the operand that fired is the one its rule subtree prescribes"""
+    l, r = Z.f_left(n), Z.f_right(n)
+    fl, fr = z3.Select(st.fields['is_false'], l), z3.Select(st.fields['is_false'], r)
+    cl, cr = z3.Select(st.fields['concl'], l), z3.Select(st.fields['concl'], r)
+    return [('left-flag-is-the-truth-of-the-left-branch', fl == z3.Not(Z.Den(l, rho))),
+            ('right-flag-is-the-truth-of-the-right-branch-when-the-left-is-false', z3.Implies(fl, fr == z3.Not(Z.Den(r, rho)))),
+            ('left-conclusions-when-the-left-fired', z3.Implies(z3.Not(fl), cl == Sel(l, rho))),
+            ('right-conclusions-when-the-right-fired', z3.Implies(z3.And(fl, z3.Not(fr)), cr == Sel(r, rho)))]
+
+
+class ElseIfRuleEval(ConclusionMixin, ElseIfEval):
+    """ElseIf._evaluate__ once more, as the helper of Alternative: the interface clauses plus S2"""
+    props = ('C12',)
+    modes = ('sound',)
+
+    def extra_yield_obligations(self, eng, st, v, ordinal, node):
+        n = st.ghost['self']
+        rho = z3.FreshConst(Z.Env, 'rho')
+        m = st.dicts[v.ref].merge(st.ghost['sigma_now'])
+        for nm, f in s2_clauses(st, n, rho):
+            eng.oblige(st, f"C12/S2@yield#{ordinal}/{nm}", f, hyp=[Z.ext(rho, m), WD(n, rho)], envs=[rho], line=node.lineno)
+
+    def on_iteration_end(self, eng, st, ordinal):
+        EvalContract.on_iteration_end(self, eng, st, ordinal)      # a plain else-if has no conclusion set of its own to clear
+
+
+class AlternativeEval(ConclusionMixin, EvalContract):
+    """Alternative._evaluate__: the rows of the else-if (super()._evaluate__, same node) with the conclusion selected:
+        Sel(Alternative(l, r), rho) = Sel(l) if Den(l) else (Sel(r) if Den(r) else {})
+    update_conclusion (its own contract: UpdateConclusion) adds the chosen set unless the same conclusion binding was
+    concluded before (ghost `dup`): S1 is stated modulo that de-duplication."""
+    qual = 'conclusion_selector:Alternative._evaluate__'
+    cls = 'Alternative'
+    props = ('C12',)
+    modes = ('sound',)
+    trusted = ("update_conclusion(output, conclusions): adds `conclusions` to the node's own set unless it is empty or the "
+               "projection of the output on the conclusions' variables was concluded before (contract UpdateConclusion)",
+               "super()._evaluate__ is ElseIf._evaluate__ on the same node: interface contract I plus clause S2 (contract "
+               "ElseIfRuleEval); result cache off (cache on: bounded rule-tree stand-ins, known finding)")
+
+    def modenv(self):
+        env = base_modenv()
+        env['super'] = C(Ref('func', 'super'))
+        return env
+
+    def children(self, n):
+        return [Z.f_left(n), Z.f_right(n)]
+
+    def shape_facts(self, n):
+        l, r = Z.f_left(n), Z.f_right(n)
+        return (child_shape(n, l) + child_shape(n, r) + tree_shape(l, r) +
+                [Z.cond_pos(l), Z.cond_pos(r), Z.truth_node(n), z3.Not(Z.is_value(n))])
+
+    def den(self, n, rho):
+        return z3.Or(Z.Den(Z.f_left(n), rho), Z.Den(Z.f_right(n), rho))
+
+    def sel(self, n, rho):
+        l, r = Z.f_left(n), Z.f_right(n)
+        return z3.If(Z.Den(l, rho), Sel(l, rho), z3.If(Z.Den(r, rho), Sel(r, rho), EMPTY))
+
+    def call(self, eng, st, f, args, kwargs, node):
+        if isinstance(f, C) and f.v == Ref('func', 'super'):
+            return [(st, Obj('super_proxy', {}))]
+        if isinstance(f, Meth) and isinstance(f.recv, Obj) and f.recv.kind == 'super_proxy' and f.name == '_evaluate__':
+            srcs = args[0] if args else kwargs.get('sources', NONE)
+            fl = args[1] if len(args) > 1 else kwargs.get('yield_when_false', FALSE)
+            return [(st, Obj('stream', {'node': st.ghost['self'], 'sigma': srcs, 'ywf': eng.to_z3_bool(eng.truth(st, fl)),
+                                        'line': node.lineno, 'own_method': True}))]
+        return super().call(eng, st, f, args, kwargs, node)
+
+    def assume_row(self, st, c, sig, f, R, filt_c=None):
+        m = super().assume_row(st, c, sig, f, R, filt_c)
+        if c.eq(st.ghost['self']):
+            fields = dict(st.fields)
+
+            class _S:        # the state as it is when the row is delivered
+                pass
+            snap = _S()
+            snap.fields = fields
+            st.qf.append(lambda rho, m=m, c=c, snap=snap: z3.Implies(z3.And(Z.ext(rho, m), WD(c, rho)),
+                                                                      z3.And(*[g for _, g in s2_clauses(snap, c, rho)])))
+            for e in st.ghost.get('envs', []):
+                st.assume(st.qf[-1](e))
+        return m
+
+    def node_update_conclusion(self, eng, st, recv, args, kwargs, node):
+        out, concs = args
+        if not (isinstance(concs, Obj) and concs.kind == 'conclset' and recv.t.eq(st.ghost['self'])):
+            raise OutOfSubset("update_conclusion arguments", node)
+        st = st.clone()
+        n = st.ghost['self']
+        src = z3.Select(st.fields['concl'], concs.data['of'])
+        cur = z3.Select(st.fields['concl'], n)
+        dup = z3.FreshConst(Z.B, 'concluded_before')
+        st.ghost['dup'] = z3.Or(st.ghost.get('dup', z3.BoolVal(False)), dup)
+        st.fields['concl'] = z3.Store(st.fields['concl'], n, z3.If(z3.Or(src == EMPTY, dup), cur, z3.Map(Z.OR_D, cur, src)))
+        return [(st, NONE)]
+
+    def extra_yield_obligations(self, eng, st, v, ordinal, node):
+        n = st.ghost['self']
+        rho = z3.FreshConst(Z.Env, 'rho')
+        m = st.dicts[v.ref].merge(st.ghost['sigma_now'])
+        lbl = z3.Select(st.fields['is_false'], n)
+        dup = st.ghost.get('dup', z3.BoolVal(False))
+        got = z3.Select(st.fields['concl'], n)
+        eng.oblige(st, f"C12/select@yield#{ordinal}/conclusions-are-those-the-rule-tree-prescribes",
+                   z3.And(z3.Implies(z3.Not(dup), got == z3.If(lbl, EMPTY, self.sel(n, rho))), z3.Implies(dup, got == EMPTY)),
+                   hyp=[Z.ext(rho, m), WD(n, rho)], envs=[rho], line=node.lineno)
+
+    def on_yield(self, eng, st, v, ordinal, node):
+        res = super().on_yield(eng, st, v, ordinal, node)
+        for s in res:
+            s.ghost.pop('dup', None)
+        return res
+
+
+class UpdateConclusion(LibModel):
+    """ConclusionSelector.update_conclusion(output, conclusions) - the callee contract AlternativeEval relies on:
+    nothing happens for an empty set; otherwise the projection K of `output` onto the variables of the conclusions is looked
+    up ONCE in the node's concluded-before set for the output's truth value; if it was not seen, `conclusions` is added to the
+    node's own set and K (the same dict) is recorded in the same set; if it was seen nothing changes."""
+    qual = 'conclusion_selector:ConclusionSelector.update_conclusion'
+    cls = 'ConclusionSelector'
+    props = ('C12',)
+    modes = ('sound',)
+    trusted = ("which variables key the de-duplication (the conclusions' non-literal variables) is not interpreted: the loop "
+               "that collects them is summarised as 'some id set'; SeenSet.check / add have their own contracts (cache.py)",)
+
+    def modenv(self):
+        env = base_modenv()
+        env['Literal'] = C(Ref('class', 'Literal'))
+        return env
+
+    def setup(self, eng):
+        st = State()
+        n = z3.Const('self', Z.Node)
+        st.ghost['self'] = n
+        st.locals['self'] = ZV(n, 'node')
+        st.fields = {'concl': z3.Const('concl0', ArrNodeSet), 'is_false': z3.Const('is_false0', Z.ArrNB)}
+        st.locals['output'] = eng.new_dict(st, Z.ZMap.fresh('output'))
+        st.ghost['src'] = z3.Const('given_conclusions', Z.ArrIB)
+        st.locals['conclusions'] = Obj('givenset', {})
+        st.ghost['seen_calls'] = []
+        st.ghost['idsets'] = {}
+        return [st]
+
+    def obj_truth(self, eng, st, v):
+        if v.kind == 'givenset':
+            return st.ghost['src'] != EMPTY
+        return None
+
+    def new_HashedIterable(self, eng, st, args, kwargs, node):
+        st = st.clone()
+        r = eng.new_ref()
+        ids = dict(st.ghost['idsets'])
+        ids[r] = z3.K(Z.I, z3.BoolVal(False))
+        st.ghost['idsets'] = ids
+        return [(st, Obj('idset', {'ref': r}))]
+
+    def abstract_loop(self, eng, st, s, it, ordinal):
+        if isinstance(it, Obj) and it.kind == 'givenset':
+            # the loop only fills local id sets: afterwards they hold some ids (not interpreted)
+            e = st.clone()
+            e.ghost['idsets'] = {r: z3.FreshConst(Z.ArrIB, 'collected') for r in st.ghost['idsets']}
+            return [Outcome(e)]
+        return super().abstract_loop(eng, st, s, it, ordinal)
+
+    def key_ids(self, eng, st, y):
+        if isinstance(y, Obj) and y.kind == 'idset':
+            return st.ghost['idsets'][y.data['ref']]
+        return super().key_ids(eng, st, y)
+
+    def getattr(self, eng, st, recv, name):
+        if isinstance(recv, ZV) and recv.ty == 'node' and recv.t.eq(st.ghost['self']):
+            if name == 'concluded_before':
+                return [(st, Obj('seenpair', {}))]
+            if name == '_conclusion_':
+                return [(st, Obj('ownset', {}))]
+            if name == '_is_false_':
+                return [(st, ZV(z3.Select(st.fields['is_false'], recv.t), 'bool'))]
+        return super().getattr(eng, st, recv, name)
+
+    def subscript(self, eng, st, recv, k):
+        if isinstance(recv, Obj) and recv.kind == 'seenpair':
+            return [(st, Obj('seenset', {'key': eng.to_z3_bool(eng.truth(st, k))}))]
+        return super().subscript(eng, st, recv, k) if hasattr(super(), 'subscript') else None
+
+    def obj_seenset_check(self, eng, st, recv, args, kwargs, node):
+        (d,) = args
+        st = st.clone()
+        seen = z3.FreshConst(Z.B, 'seen')
+        st.ghost['seen_calls'] = st.ghost['seen_calls'] + [('check', recv.data['key'], d, seen)]
+        return [(st, ZV(seen, 'bool'))]
+
+    def obj_seenset_add(self, eng, st, recv, args, kwargs, node):
+        (d,) = args
+        st = st.clone()
+        st.ghost['seen_calls'] = st.ghost['seen_calls'] + [('add', recv.data['key'], d, None)]
+        return [(st, NONE)]
+
+    def obj_ownset_update(self, eng, st, recv, args, kwargs, node):
+        (o,) = args
+        if not (isinstance(o, Obj) and o.kind == 'givenset'):
+            raise OutOfSubset("own conclusions updated with something else", node)
+        st = st.clone()
+        n = st.ghost['self']
+        cur = z3.Select(st.fields['concl'], n)
+        st.fields['concl'] = z3.Store(st.fields['concl'], n, z3.Map(Z.OR_D, cur, st.ghost['src']))
+        st.ghost['added'] = st.ghost.get('added', 0) + 1
+        return [(st, NONE)]
+
+    def on_exit(self, eng, o):
+        st = o.st
+        n = st.ghost['self']
+        if o.sig not in (NEXT, RETURN):
+            eng.oblige(st, "C12/update/finishes-normally", z3.BoolVal(False))
+            return
+        calls = st.ghost['seen_calls']
+        src = st.ghost['src']
+        pre = z3.Select(z3.Const('concl0', ArrNodeSet), n)
+        post = z3.Select(st.fields['concl'], n)
+        truth = z3.Not(z3.Select(z3.Const('is_false0', Z.ArrNB), n))
+        checks = [c for c in calls if c[0] == 'check']
+        adds = [c for c in calls if c[0] == 'add']
+        eng.oblige(st, "C12/update/empty-set-changes-nothing", z3.Implies(src == EMPTY, z3.And(post == pre, z3.BoolVal(not calls))))
+        shape_ok = len(checks) <= 1 and len(adds) <= len(checks)
+        eng.oblige(st, "C12/update/at-most-one-lookup", z3.BoolVal(shape_ok))
+        if checks and shape_ok:
+            _, key, d, seen = checks[0]
+            eng.oblige(st, "C12/update/looked-up-in-the-set-of-the-outputs-truth-value", key == truth)
+            # (the output itself would also do: which variables key the de-duplication is an optimisation the property does
+            # not fix; what matters is that the key is made of the output's own bindings)
+            eng.oblige(st, "C12/update/key-is-the-output-or-a-projection-of-it",
+                       z3.BoolVal(isinstance(d, D) and (d.ref == st.locals['output'].ref or
+                                                        st.ghost.get('derived', {}).get(d.ref, (None,))[0] == st.locals['output'].ref)))
+            eng.oblige(st, "C12/update/seen-before-changes-nothing", z3.Implies(seen, z3.And(post == pre, z3.BoolVal(not adds))))
+            ok_add = bool(adds) and isinstance(adds[0][2], D) and isinstance(d, D) and adds[0][2].ref == d.ref
+            eng.oblige(st, "C12/update/not-seen-adds-the-conclusions-and-records-the-same-key",
+                       z3.Implies(z3.Not(seen), z3.And(post == z3.Map(Z.OR_D, pre, src), z3.BoolVal(ok_add),
+                                                       adds[0][1] == key if adds else z3.BoolVal(False))))
+        elif not checks:
+            eng.oblige(st, "C12/update/a-non-empty-set-is-looked-up", src == EMPTY)
+
+    def signature(self, ob, model):
+        return {}
+
+
+CONTRACTS = [ExceptIfEval, ElseIfRuleEval, AlternativeEval, UpdateConclusion]
